@@ -149,3 +149,81 @@ Section NoDollarFiltAddr.
     - rewrite H1. exact H0.
   Qed.
 End NoDollarFiltAddr.
+
+(* ---------- blanks before and after a path with filters: the very same tree ---------- *)
+Definition fpadded_tokens (n1 : nat) (l : list fstep) : list token := TAct 8 :: fsteps_tokens (n1 + 1) l ++ [TAct 2; TAct 0].
+
+Lemma blanks_stop n : dot_stop (blanks n).
+Proof. destruct n as [|n]; [exact I|]. unfold blanks. simpl. repeat split; try reflexivity; discriminate. Qed.
+Lemma blanks_rule7_fail n : forall p, evG (PRef 7) (blanks n) p PFail.
+Proof. intros p. destruct n as [|n]; [apply ev_rule7_eof|apply ev_rule7_blank]. Qed.
+
+Lemma ev_fpadded_path n1 n2 l : forallb fstep_ok l = true ->
+  evG (PRef 0) (fpadded_path n1 n2 l) 0 (POk [] (n1 + 1 + List.length (render_fsteps l) + n2) (fpadded_tokens n1 l)).
+Proof.
+  intros Hs. unfold fpadded_path, fchain_path, fpadded_tokens. eapply ev_conv.
+  - eapply ev_ref; [reflexivity|]. apply ev_alt_l.
+    eapply ev_seq_ok; [| |reflexivity].
+    + eapply ev_ref; [reflexivity|].
+      eapply ev_seq_ok; [apply (ev_space_blanks n1 ((36 :: render_fsteps l) ++ blanks n2) 0); cbn [app]; discriminate| |reflexivity].
+      eapply ev_seq_ok; [| |reflexivity].
+      * cbn [app]. eapply ev_ref; [reflexivity|]. apply ev_alt_l. eapply ev_ref; [reflexivity|].
+        eapply ev_seq_ok; [apply (ev_lit_ok G [36]); apply strip1_ok|apply ev_act|reflexivity].
+      * eapply ev_ref; [reflexivity|].
+        eapply ev_seq_ok; [apply (ev_fsteps_star l (blanks n2) _ Hs (blanks_stop n2) (blanks_rule7_fail n2))| |reflexivity].
+        eapply ev_seq_ok; [apply ev_star_stop; destruct n2; [apply ev_rule8_eof|apply ev_rule8_blank]| |reflexivity].
+        eapply ev_seq_ok; [|apply ev_act|reflexivity].
+        pose proof (ev_space_blanks n2 [] (0 + n1 + 1 + List.length (render_fsteps l)) I) as H. rewrite app_nil_r in H. exact H.
+    + eapply ev_seq_ok; [| apply ev_act |reflexivity].
+      eapply ev_ref; [reflexivity|]. apply ev_not_ok. apply ev_any_fail.
+  - cbn [List.length app Nat.add]. rewrite <- !app_assoc. cbn [app]. f_equal.
+Qed.
+Lemma peg_fpadded_path n1 n2 l : forallb fstep_ok l = true ->
+  peg_parse G (fpadded_path n1 n2 l) = POk [] (n1 + 1 + List.length (render_fsteps l) + n2) (fpadded_tokens n1 l).
+Proof. intros Hs. apply ev_peg_parse; [apply ev_fpadded_path; exact Hs|apply peg_never_out_of_fuel]. Qed.
+
+Section FPaddedExec.
+  Variable cfg : config.
+  Variable parse_float : string -> option num.
+  Variable regex_ok : string -> bool.
+  Notation execute := (execute cfg parse_float regex_ok).
+  Notation exec_action := (exec_action cfg parse_float regex_ok).
+  Notation fpres_f := (FiltChain.fpres cfg parse_float).
+
+  Theorem parse_fpadded_path n1 n2 s r : forallb fstep_ok (s :: r) = true -> forallb (fstep_okp parse_float regex_ok) (s :: r) = true ->
+    parse_with cfg parse_float regex_ok G (fpadded_path n1 n2 (s :: r)) = ParseOk (fchain_node cfg parse_float (s :: r)).
+  Proof.
+    intros Hs Hokp. unfold parse_with, parse_from. rewrite (peg_fpadded_path n1 n2 (s :: r) Hs). unfold fpadded_tokens.
+    cbn [Actions.execute].
+    change (exec_action 8 [] 0 ps_init) with (AOk (mk [INode (Node KRoot (root_basic cfg) ONone)])). cbn [abind].
+    assert (Hsk : skipn (n1 + 1) (fpadded_path n1 n2 (s :: r)) = render_fsteps (s :: r) ++ blanks n2).
+    { unfold fpadded_path, fchain_path. rewrite skipn_add, skipn_app. rewrite (skipn_all2 (blanks n1)) by (rewrite blanks_len; lia).
+      rewrite blanks_len, Nat.sub_diag. reflexivity. }
+    destruct (exec_fsteps_tail cfg parse_float regex_ok (fpadded_path n1 n2 (s :: r)) (s :: r) (blanks n2) (n1 + 1) [INode (Node KRoot (root_basic cfg) ONone)] [TAct 2; TAct 0] [] 0 Hs Hokp Hsk) as (cps' & b' & E).
+    rewrite E. clear E. cbn [app Actions.execute].
+    change (exec_action 2 cps' b' ?st) with (abind (set_node_chain st) update_root_vg).
+    unfold set_node_chain, mk. cbn [params map app].
+    change (INode (fnode_of cfg parse_float s) :: map (fun x => INode (fnode_of cfg parse_float x)) r) with (map (fun x => INode (fnode_of cfg parse_float x)) (s :: r)).
+    pose proof (chain_fold_f cfg parse_float KRoot (root_basic cfg) (s :: r) ltac:(split; intros; discriminate) [] ltac:(constructor)) as F. cbn [link app] in F. rewrite F. clear F.
+    cbn [abind with_params params saved proot]. unfold update_root_vg. cbn [params with_params saved proot abind].
+    unfold with_params. cbn [params saved proot].
+    change (exec_action 0 cps' b' ?st) with
+      (abind (pop_node st) (fun '(rt, st1) => AOk {| params := params st1; saved := saved st1; proot := Some (set_ctext_deep (delete_root rt) "") |})).
+    unfold pop_node, pop. cbn [params rev app abind with_params saved proot].
+    unfold fchain_node, node_of. pose proof (FiltChain.fpres_plain cfg parse_float (s :: r)) as Hp.
+    destruct (fpres_f (s :: r)) as [|x l] eqn:Ep.
+    { exfalso. unfold FiltChain.fpres in Ep. cbn [flat_map] in Ep. pose proof (fpre_nonempty cfg parse_float s) as Hn. destruct (fpre_of cfg parse_float s); [contradiction Hn; reflexivity|discriminate Ep]. }
+    inversion Hp as [|? ? Hx Hl]; subst.
+    assert (Ev : delete_root (update_vg (Node KRoot (root_basic cfg) (link (x :: l)))) = Node (fst x) (set_vgroup (any_vg (x :: l)) (snd x)) (link l)).
+    { unfold update_vg. cbn [chain_vg]. rewrite link_vg. cbn [root_basic mk_basic vgroup orb].
+      destruct (any_vg (x :: l)) eqn:Ea.
+      - reflexivity.
+      - cbn [link delete_root vgroup]. cbn [any_vg existsb] in Ea. apply orb_false_iff in Ea. destruct Ea as [Ea _].
+        rewrite <- Ea at 1. rewrite set_vgroup_same. reflexivity. }
+    rewrite Ev. rewrite (set_ctext_link _ _ l Hx Hl). reflexivity.
+  Qed.
+
+  Corollary fpadded_same_parse n1 n2 s r : forallb fstep_ok (s :: r) = true -> forallb (fstep_okp parse_float regex_ok) (s :: r) = true ->
+    parse_with cfg parse_float regex_ok G (fpadded_path n1 n2 (s :: r)) = parse_with cfg parse_float regex_ok G (fchain_path (s :: r)).
+  Proof. intros Hs Hp. rewrite parse_fpadded_path, parse_fchain_path by assumption. reflexivity. Qed.
+End FPaddedExec.
